@@ -33,7 +33,7 @@ func ruleC05(w *World, r *Report) {
 	const P = "C05"
 	r.Explanation = "R05.1 after NewPFCPSession succeeded every exit of the establishment handler either commits the session (store.PutSession) or has passed RemoveSession and the releases of what was acquired; R05.2 at every session-end site (call sites of RemoveSession, derived) every path through the site also removes the session's datapath entries and releases its UE IP and its UP-chosen TEIDs; teardown loops end every stored session on every iteration; " +
 		"R05.3 UP4 sendDelete reaches the release of counter cells, both meter cells of each meter kind, tunnel-peer references, application references and UE-address mappings on its success path; R05.4 the session store hands out rule slices that do not share backing arrays with the stored value (a rejected modification cannot edit the stored rules), and RemoveSession pairs the gauge decrement with the store delete under the local SEID."
-	r.Explanation += " R05.6 the session copy handed to the deletion paths copies each rule list in full (no fixed-length target), and Remove{PDR,FAR,QER} return the removed rule by value, not a pointer into the list they have shifted."
+	r.Explanation += " R05.6 the session copy handed to the deletion paths copies each rule list in full (no fixed-length target), and Remove{PDR,FAR,QER} return the removed rule by value, not a pointer into the list they have shifted. R05.7 UpdatePDR carries the allocation marks of the stored PDR over; R05.8 failing exits of addOrUpdateGTPTunnelPeer give a new peer's ID back effectively; R05.9 the UP4 status filter, interpreted per status × method, tolerates NOT_FOUND on DELETE (shared sessions entry); R05.10 the marks of a PDR removed by a modification are examined; R05.11 the UE address is released under the condition it was allocated under; R05.12 an Update FAR that moves the tunnel drops the reference on the previous peer."
 	r.NotDecided = "'N attach/detach cycles never exhaust a pool' as arithmetic (a consequence of pairing); releases inside third-party containers"
 	cg := w.CG()
 	remove := w.Fn(P, "pfcpiface.(*PFCPConn).RemoveSession")
@@ -217,6 +217,7 @@ func ruleC05(w *World, r *Report) {
 	ruleC05Complete(w, r)
 	ruleOwnershipMarksSurvive(w, r, "C05", "R05.7")
 	ruleC05TunnelPeerID(w, r)
+	ruleC05Residual(w, r, "C05", false)
 	// R05.9: the UP4 deletion gets through for a session with several PDRs of one direction
 	{
 		mod := w.Fn(P, "pfcpiface.(*UP4).modifyUP4ForwardingConfiguration")
@@ -793,4 +794,110 @@ func ruleC05TunnelPeerID(w *World, r *Report) {
 		r.check(miss == nil, "R05.8", fn, fmt.Sprintf("failing exit #%d gives the new tunnel-peer ID back", k+1), w.Pos(ret.Pos()), "ID appended to the queue (or the registered peer released)", "after a failed write the error path calls unsafeReleaseAllocatedGTPTunnelPeer, which looks the peer up in tunnelPeerIDs — where a new peer is registered only after a successful write — and so releases nothing: the ID taken from the queue is lost, and after enough rejected requests no tunnel peer can be created any more")
 	}
 	r.floor("R05.8 failing exits after the allocation of a tunnel-peer ID", n, 2)
+}
+
+// ruleC05Residual: further places where something a session acquired can outlive it (R05.10–R05.12).
+func ruleC05Residual(w *World, r *Report, P string, ipOnly bool) {
+	mod := w.Fn(P, "pfcpiface.(*PFCPConn).handleSessionModificationRequest")
+	mn := w.FuncName(mod)
+	// R05.10: a PDR removed by a modification takes its allocation marks with it. The session-end release
+	// looks at the marks on the PDRs that are still stored, so what the UPF allocated for the removed PDR
+	// (its TEID; the session's UE address when it was the marked PDR) is either released when the removal
+	// is accepted or kept track of some other way — the removed PDR's marks must at least be looked at.
+	{
+		rm := w.Fn(P, "pfcpiface.(*PFCPSession).RemovePDR")
+		n := 0
+		for _, c := range callsTo(mod, rm) {
+			n++
+			call := c.(*ssa.Call)
+			removed := extractOf(call, 0)
+			looked := false
+			if removed != nil {
+				seen := map[ssa.Value]bool{}
+				var follow func(v ssa.Value, d int)
+				follow = func(v ssa.Value, d int) {
+					if v == nil || d > 6 || seen[v] || v.Referrers() == nil {
+						return
+					}
+					seen[v] = true
+					for _, ref := range *v.Referrers() {
+						switch x := ref.(type) {
+						case *ssa.FieldAddr:
+							if fv := fieldVar(x); fv != nil && (fv.Name() == "UPAllocateFteid" || fv.Name() == "allocIPFlag") {
+								looked = true
+							}
+						case *ssa.Field:
+							if st, ok := x.X.Type().Underlying().(*types.Struct); ok && x.Field < st.NumFields() {
+								if nm := st.Field(x.Field).Name(); nm == "UPAllocateFteid" || nm == "allocIPFlag" {
+									looked = true
+								}
+							}
+						case *ssa.UnOp:
+							follow(x, d+1)
+						case *ssa.Phi:
+							follow(x, d+1)
+						case ssa.CallInstruction:
+							if g := staticCallee(x); g != nil && (g.Name() == "releaseAllocatedTEIDs" || g.Name() == "FreeID" || g.Name() == "DeallocIP") {
+								looked = true
+							}
+						}
+					}
+				}
+				follow(removed, 0)
+			}
+			r.check(looked, "R05.10", mn, "what the UPF allocated for a removed PDR is accounted for", w.Pos(call.Pos()), "the removed PDR's allocation marks are examined", "Remove PDR drops the PDR together with its UPAllocateFteid / allocIPFlag marks and nothing looks at them: the TEID the UPF chose for it (and the session's UE address, if this was the marked PDR) is never given back, not even when the session ends")
+		}
+		r.floor("R05.10 RemovePDR call sites in the modification handler", n, 1)
+	}
+	// R05.11: the release condition of the UE address is not narrower than the allocation condition
+	{
+		rel := w.Fn(P, "pfcpiface.releaseAllocatedIPs")
+		parse := w.Fn(P, "pfcpiface.(*pdr).parseUEAddressIE")
+		core := w.ConstInt(P, pfcpPkg, "core")
+		narrowed := false
+		for _, c := range callsIn(rel, func(c ssa.CallInstruction) bool { return staticCallee(c) != nil && staticCallee(c).Name() == "DeallocIP" }) {
+			// does every path to the release pass srcIface == core?
+			if onlyVia(rel, c.(ssa.Instruction), func(a, b *ssa.BasicBlock) bool {
+				x, op, y, ok := edgeFact(a, b)
+				k, isK := constInt(y)
+				return ok && op == token.EQL && isK && k == core && strings.HasSuffix(symOf(x).String(), "srcIface")
+			}) {
+				narrowed = true
+			}
+		}
+		if narrowed {
+			// then the mark may only be set for core-side PDRs
+			okAlloc := true
+			var at token.Pos
+			for _, st := range fieldStores(parse, "pdr")["allocIPFlag"] {
+				if c, ok := st.Val.(*ssa.Const); ok && c.Value != nil && c.Value.String() == "false" {
+					continue
+				}
+				at = st.Pos()
+				if !onlyVia(parse, st, func(a, b *ssa.BasicBlock) bool {
+					x, op, y, ok := edgeFact(a, b)
+					k, isK := constInt(y)
+					return ok && op == token.EQL && isK && k == core && strings.HasSuffix(symOf(x).String(), "srcIface")
+				}) {
+					okAlloc = false
+				}
+			}
+			r.check(okAlloc, "R05.11", w.FuncName(rel), "the UE address is released under the condition it was allocated under", w.Pos(at), "allocation also limited to core-side PDRs", "releaseAllocatedIPs gives the address back only for a marked PDR whose source interface is core, but parseUEAddressIE allocates (and marks) for any PDR that carries CHV4: an address allocated through an access-side PDR is never released")
+		} else {
+			r.ok("R05.11", w.FuncName(rel), "the UE address is released under the condition it was allocated under", w.Pos(rel.Pos()), "release not narrowed by the interface")
+		}
+	}
+	if ipOnly {
+		return
+	}
+	// R05.12: a session's reference on a GTP tunnel peer moves with its FAR. When an Update FAR points the
+	// tunnel at another peer, the reference on the previous peer is dropped (removeGTPTunnelPeer with the
+	// old FAR) — otherwise the previous peer keeps a reference of a session that no longer uses it, and the
+	// peer and its ID are never released.
+	{
+		upd := w.Fn(P, "pfcpiface.(*UP4).sendUpdate")
+		rm := w.Fn(P, "pfcpiface.(*UP4).removeGTPTunnelPeer")
+		reach := w.CG().Reachable([]*ssa.Function{upd}, func(e *Edge) bool { return e.Kind != "go" })[rm]
+		r.check(reach, "R05.12", w.FuncName(upd), "an Update FAR that changes the tunnel drops the reference on the previous tunnel peer", w.Pos(upd.Pos()), "removeGTPTunnelPeer reachable from sendUpdate", "sendUpdate adds the session's reference to the new tunnel peer (addOrUpdateGTPTunnelPeer) but nothing on the modification path removes it from the previous one: after a hand-over the old peer keeps {F-SEID, FAR ID} in usedBy for ever, the Session Deletion only dereferences the current peer, and the old peer's entry and ID are never released")
+	}
 }
